@@ -85,16 +85,29 @@ const (
 )
 
 // saveMapGob saves a map to a file using gob encoding.
+// The data is written to a temporary file which is then renamed into place, so that a
+// crash while saving never leaves a truncated file that would fail to load at startup.
 func saveMapGob[K comparable, V any](filePath string, data map[K]V) error {
-	file, err := os.Create(filePath)
+	tmpPath := filePath + ".tmp"
+	file, err := os.Create(tmpPath)
 	if err != nil {
-		return fmt.Errorf("failed to create file %s: %w", filePath, err)
+		return fmt.Errorf("failed to create file %s: %w", tmpPath, err)
 	}
-	defer file.Close()
 
 	encoder := gob.NewEncoder(file)
 	if err := encoder.Encode(data); err != nil {
-		return fmt.Errorf("failed to encode to file %s: %w", filePath, err)
+		file.Close()
+		return fmt.Errorf("failed to encode to file %s: %w", tmpPath, err)
+	}
+	if err := file.Sync(); err != nil {
+		file.Close()
+		return fmt.Errorf("failed to sync file %s: %w", tmpPath, err)
+	}
+	if err := file.Close(); err != nil {
+		return fmt.Errorf("failed to close file %s: %w", tmpPath, err)
+	}
+	if err := os.Rename(tmpPath, filePath); err != nil {
+		return fmt.Errorf("failed to rename %s to %s: %w", tmpPath, filePath, err)
 	}
 	return nil
 }
